@@ -14,6 +14,7 @@ import (
 	"fmt"
 	"math"
 	"math/big"
+	"strings"
 
 	"filippo.io/edwards25519"
 	"github.com/MixinNetwork/mixin/common"
@@ -35,6 +36,16 @@ type Case struct {
 	X       string `json:"x,omitempty"`        // round: integer; skew: now
 	Ts      string `json:"ts,omitempty"`
 	T       string `json:"t,omitempty"`
+	Steps   []Step `json:"steps,omitempty"` // seq: presented in this order to ONE node instance
+}
+
+// one presentation of a message to the node of a sequence
+type Step struct {
+	Kind    string `json:"kind"`
+	Rcp     string `json:"rcp,omitempty"` // receiver id passed to AuthenticateAs; default: the sequence's
+	Msg     string `json:"msg"`
+	Timeout int64  `json:"timeout,omitempty"`
+	NowNano int64  `json:"now_nano"`
 }
 
 const msgLen = 137 // property: 8 timestamp + 32 recipient + 32 key + 1 flag + 64 signature
@@ -76,8 +87,7 @@ func floorSec(nano int64) int64 {
 }
 
 // the real AuthenticateAs at a clock whose Unix second is floorSec(nowNano)
-func authAt(net, rcp crypto.Hash, msg []byte, timeout, nowNano int64) (tok *p2p.AuthToken, err error, now int64) {
-	node := kernel.VerifAuthNode(net, common.Address{}, false)
+func authAt(node *kernel.Node, rcp crypto.Hash, msg []byte, timeout, nowNano int64) (tok *p2p.AuthToken, err error, now int64) {
 	want := floorSec(nowNano)
 	for try := 0; try < 20; try++ {
 		kernel.VerifClockSet(nowNano)
@@ -93,15 +103,49 @@ func authAt(net, rcp crypto.Hash, msg []byte, timeout, nowNano int64) (tok *p2p.
 }
 
 func runAuth(c *vh.Ctx, cs Case) {
+	node := kernel.VerifAuthNode(hash32(unhex(cs.Net)), common.Address{}, false)
+	stepAuth(c, node, cs, cs, cs)
+}
+
+// a sequence: every step goes to the same long-lived node; each step is judged
+// by the same stateless oracle and is an ordinary (stateless) model case, so an
+// acceptance that depends on what was accepted before is a failure / mismatch.
+func runSeq(c *vh.Ctx, seq Case) {
+	node := kernel.VerifAuthNode(hash32(unhex(seq.Net)), common.Address{}, false)
+	accepted := []Step{} // what a faulty memory could have kept: replay context of a step
+	for i, st := range seq.Steps {
+		rcp := st.Rcp
+		if rcp == "" {
+			rcp = seq.Rcp
+		}
+		cs := Case{Op: "auth", Kind: "seq/" + st.Kind, Net: seq.Net, Rcp: rcp, Msg: st.Msg, Timeout: st.Timeout, NowNano: st.NowNano}
+		full := seq
+		full.Steps = seq.Steps[:i+1]
+		ctx := Case{Op: "seq", Net: seq.Net, Rcp: seq.Rcp, Steps: append(append([]Step{}, accepted...), st)}
+		if stepAuth(c, node, cs, full, ctx) {
+			dup := false
+			for _, a := range accepted {
+				dup = dup || (a.Msg == st.Msg && a.Rcp == st.Rcp)
+			}
+			if !dup {
+				accepted = append(accepted, st)
+			}
+		}
+	}
+}
+
+// cs: this presentation; failCase: what reproduces an oracle failure (the sequence
+// up to here); modelCase: JSON attached to the model case.  Reports acceptance.
+func stepAuth(c *vh.Ctx, node *kernel.Node, cs Case, failCase Case, modelCase Case) bool {
 	net, rcp, msg := unhex(cs.Net), unhex(cs.Rcp), unhex(cs.Msg)
 	var tok *p2p.AuthToken
 	var err error
 	var now int64
-	pan, pv := vh.Catch(func() { tok, err, now = authAt(hash32(net), hash32(rcp), msg, cs.Timeout, cs.NowNano) })
+	pan, pv := vh.Catch(func() { tok, err, now = authAt(node, hash32(rcp), msg, cs.Timeout, cs.NowNano) })
 	if pan {
-		c.Case("auth/"+cs.Kind, cs.Msg, false, cs, "")
-		c.Fail("auth-panic", fmt.Sprintf("AuthenticateAs panicked: %v", pv), cs)
-		return
+		c.Case("auth/"+cs.Kind, cs.Msg, false, modelCase, "")
+		c.Fail("auth-panic", fmt.Sprintf("AuthenticateAs panicked: %v", pv), failCase)
+		return false
 	}
 	accepted := err == nil
 
@@ -125,24 +169,24 @@ func runAuth(c *vh.Ctx, cs Case) {
 	want := okLen && okRcp && okSkew && okSelf && okSig
 	switch {
 	case accepted && !okLen:
-		c.Fail("accept-bad-length", fmt.Sprintf("message of %d bytes accepted", len(msg)), cs)
+		c.Fail("accept-bad-length", fmt.Sprintf("message of %d bytes accepted", len(msg)), failCase)
 	case accepted && !okRcp:
-		c.Fail("accept-wrong-recipient", "message addressed to another node accepted", cs)
+		c.Fail("accept-wrong-recipient", "message addressed to another node accepted", failCase)
 	case accepted && !okSkew:
-		c.Fail("accept-stale", fmt.Sprintf("timestamp %d accepted at %d with timeout %d", ts, now, cs.Timeout), cs)
+		c.Fail("accept-stale", fmt.Sprintf("timestamp %d accepted at %d with timeout %d", ts, now, cs.Timeout), failCase)
 	case accepted && !okSelf:
-		c.Fail("accept-self", "message from the receiver itself accepted", cs)
+		c.Fail("accept-self", "message from the receiver itself accepted", failCase)
 	case accepted && !okSig:
-		c.Fail("accept-unsigned", "accepted although the signature over the 73-byte prefix (time, recipient, key, relayer flag) is not valid for the named key", cs)
+		c.Fail("accept-unsigned", "accepted although the signature over the 73-byte prefix (time, recipient, key, relayer flag) is not valid for the named key", failCase)
 	case !accepted && want:
-		c.Fail("reject-valid", "well-formed, fresh, correctly addressed and signed message refused: "+err.Error(), cs)
+		c.Fail("reject-valid", "well-formed, fresh, correctly addressed and signed message refused: "+err.Error(), failCase)
 	}
 	if accepted && okLen {
 		if !bytes.Equal(tok.PeerId[:], id) {
-			c.Fail("token-peer-id", "token peer id is not the id derived from the key in the message", cs)
+			c.Fail("token-peer-id", "token peer id is not the id derived from the key in the message", failCase)
 		}
 		if tok.Timestamp != ts || tok.IsRelayer != (msg[72] == 1) || !bytes.Equal(tok.Data, msg) {
-			c.Fail("token-fields", "token timestamp/relayer flag/data differ from the message", cs)
+			c.Fail("token-fields", "token timestamp/relayer flag/data differ from the message", failCase)
 		}
 	}
 
@@ -162,7 +206,7 @@ func runAuth(c *vh.Ctx, cs Case) {
 		copy(sg[:], msg[73:137])
 		ver = k.Verify(crypto.Hash(hh), sg)
 		if ver != okSig {
-			c.Fail("verify-differs-from-ed25519", "Key.Verify and crypto/ed25519 disagree on this message", cs)
+			c.Fail("verify-differs-from-ed25519", "Key.Verify and crypto/ed25519 disagree on this message", failCase)
 		}
 	}
 	obs := vh.Err("(N * Z * bool)")
@@ -172,11 +216,12 @@ func runAuth(c *vh.Ctx, cs Case) {
 	term := vh.App("CAuth", HN(net), HN(rcp), HB(msg), vh.ZI(cs.Timeout), vh.ZI(now),
 		vh.Nat(hlen), HN(hh[:]), HN(idk), HN(pid),
 		HN(idk), HN(hh[:]), HN(vs), vh.Bool(ver), obs)
-	if cs.Kind == "mutation-oracle-only" {
+	if strings.HasSuffix(cs.Kind, "-oracle-only") {
 		term = ""
 	}
 	reachedCore := okLen && okRcp && okSkew && okSelf
-	c.Case("auth/"+cs.Kind, fmt.Sprintf("%s|%s|%s|%d|%d", cs.Net, cs.Rcp, cs.Msg, cs.Timeout, now), reachedCore, cs, term)
+	c.Case("auth/"+cs.Kind, fmt.Sprintf("%s|%s|%s|%d|%d", cs.Net, cs.Rcp, cs.Msg, cs.Timeout, now), reachedCore, modelCase, term)
+	return accepted
 }
 
 // one hexadecimal literal per byte string / big number (see coq/Model/HexLit.v)
@@ -237,6 +282,8 @@ func run(c *vh.Ctx, cs Case) {
 	switch cs.Op {
 	case "auth":
 		runAuth(c, cs)
+	case "seq":
+		runSeq(c, cs)
 	default:
 		runFloat(c, cs)
 	}
@@ -441,6 +488,81 @@ func scenario(c *vh.Ctx, mutateAll bool, modelMutations bool) {
 	run(c, v)
 }
 
+// ---- sequences on one node ---------------------------------------------------------
+
+// order "after": genuine message of X accepted (possibly several times), then every
+// tamper of it, interleaved with genuine messages of other peers and repeats of the
+// genuine one; order "before": the same tampers first on a fresh node, genuine last.
+func sequence(c *vh.Ctx, r *vh.Rand, after bool, allBytes bool, modelBytes bool) Case {
+	net := crypto.Hash(blake3.Sum256(r.Bytes(8)))
+	x, other, me, me2 := newSender(r, net), newSender(r, net), newSender(r, net), newSender(r, net)
+	nn := (int64(1_700_000_000)+int64(r.Intn(400_000_000)))*1e9 + subSecond[r.Intn(len(subSecond))]
+	now := floorSec(nn)
+	t := int64(p2p.HandshakeTimeout / 1e9)
+	if r.Chance(1, 6) {
+		t = 0 // the relayed-consumers path
+	}
+	flag := byte(r.Intn(2))
+	var g []byte
+	if r.Bool() {
+		g = builtMessage(x, net, now, me.id, flag == 1)
+	} else {
+		g = ownMessage(x, uint64(now), me.id[:], flag, 73)
+	}
+	later := nn + int64(r.Range(11, 100000))*1e9 // the genuine message has expired by then
+	step := func(kind string, m []byte, at int64) Step {
+		return Step{Kind: kind, Msg: hx(m), Timeout: t, NowNano: at}
+	}
+	genuine := []Step{step("genuine", g, nn)}
+	for k := r.Intn(4); k > 0; k-- {
+		genuine = append(genuine, step("genuine-again", g, nn))
+	}
+	var tampers []Step
+	with := func(f func(m []byte)) []byte { m := append([]byte{}, g...); f(m); return m }
+	// the fields, keeping X's key and signature bytes
+	tampers = append(tampers,
+		step("tamper-flag", with(func(m []byte) { m[72] ^= 1 }), nn),
+		step("tamper-flag-value", with(func(m []byte) { m[72] = byte(r.Range(2, 255)) }), nn),
+		step("tamper-ts", with(func(m []byte) { binary.BigEndian.PutUint64(m[:8], uint64(now+int64(r.Range(1, 9)))) }), nn),
+		step("expired-genuine", g, later),
+		step("refresh-ts", with(func(m []byte) { binary.BigEndian.PutUint64(m[:8], uint64(floorSec(later))) }), later),
+	)
+	rs := step("tamper-recipient", with(func(m []byte) { copy(m[8:40], me2.id[:]) }), nn)
+	rs.Rcp = hx(me2.id[:]) // presented as if this node were the rewritten recipient
+	tampers = append(tampers, rs, step("tamper-recipient-same-node", with(func(m []byte) { copy(m[8:40], me2.id[:]) }), nn))
+	tampers = append(tampers, step("tamper-key", with(func(m []byte) { copy(m[40:72], other.addr.PublicSpendKey[:]) }), nn))
+	if allBytes {
+		for pos := 0; pos < len(g); pos++ {
+			kind := "byte-mutation"
+			if !modelBytes {
+				kind = "byte-mutation-oracle-only"
+			}
+			tampers = append(tampers, step(kind, with(func(m []byte) { m[pos] ^= byte(r.Range(1, 255)) }), nn))
+		}
+	}
+	seq := Case{Op: "seq", Net: hx(net[:]), Rcp: hx(me.id[:])}
+	if !after {
+		seq.Steps = append(append(seq.Steps, tampers...), genuine...)
+		return seq
+	}
+	seq.Steps = append(seq.Steps, genuine...)
+	og := ownMessage(other, uint64(now), me.id[:], byte(r.Intn(2)), 73)
+	for _, tp := range tampers {
+		suffix := ""
+		if allBytes && !modelBytes {
+			suffix = "-oracle-only"
+		}
+		switch r.Intn(8) {
+		case 0:
+			seq.Steps = append(seq.Steps, step("other-peer-genuine"+suffix, og, nn))
+		case 1:
+			seq.Steps = append(seq.Steps, step("genuine-again"+suffix, g, nn))
+		}
+		seq.Steps = append(seq.Steps, tp)
+	}
+	return seq
+}
+
 func floatCases(c *vh.Ctx, n int) {
 	r := c.Rng
 	p := func(v *big.Int) string { return v.String() }
@@ -487,6 +609,10 @@ func floatCases(c *vh.Ctx, n int) {
 }
 
 func corpus(c *vh.Ctx) {
+	cr := vh.NewRand(30, "C30-corpus-sequences")
+	for i := 0; i < 4; i++ {
+		run(c, sequence(c, cr, i%2 == 0, false, false))
+	}
 	for _, x := range []string{"0", "1", "-1", "9007199254740991", "9007199254740992", "9007199254740993", "9007199254740994",
 		"9007199254740995", "18014398509481985", "18014398509481986", "18014398509481987", "18446744073709551615",
 		"18446744073709550591", "18446744073709550592", "9223372036854775807", "-9223372036854775808", "-9007199254740993"} {
@@ -505,7 +631,7 @@ func main() {
 		"sub-second offsets), timeouts (handshake value, 0, negative, tiny, huge), timestamps at the window boundary ±2 s; messages from the real " +
 		"BuildAuthenticationMessage and from a builder written from the property text; per scenario one structured variant (wrong length, other " +
 		"recipient, self, foreign signature, flag outside the signed bytes, flag value, other network, extreme timestamp, clock at the boundary, replay, " +
-		"random bytes/key); for a share of scenarios every one of the 137 single-byte mutations of an accepted message. float64 model: integer " +
+		"random bytes/key); SEQUENCES presented to one and the same node instance: a genuine message accepted (1-4 times), then its field tampers (flag, flag value, timestamp, refreshed timestamp after expiry, recipient, key; key and signature bytes kept) and all 137 single-byte mutations, interleaved with genuine messages of other peers and repeats, and as control the same tampers BEFORE the genuine one on a fresh node; every step judged by the same stateless oracle and sent to the stateless model. float64 model: integer " +
 		"conversions around 2^53..2^64 and skew tests over the full uint64 range. Non-trivial = length, recipient, freshness and not-self hold so the " +
 		"signature check decides; distinct by (network, recipient, message, timeout, clock second)."
 	if c.Replay != "" {
@@ -521,10 +647,10 @@ func main() {
 	for i := 0; i < n; i++ {
 		scenario(c, false, false)
 	}
-	m := c.Scale(60, 1500) // accepted messages whose 137 mutations are all run on the implementation
-	mm := c.Scale(3, 100)  // ... of which this many also go through the model
+	m := c.Scale(60, 1500) // sequences on one node with all 137 single-byte mutations of the accepted message
+	mm := c.Scale(3, 100)  // ... of which this many send the byte mutations through the model too
 	for i := 0; i < m; i++ {
-		scenario(c, true, i < mm)
+		run(c, sequence(c, c.Rng, i%3 != 2, true, i < mm))
 	}
 	c.Finish()
 }
